@@ -193,7 +193,8 @@ Record bobs := {
   bo_inputs : option (list rinput);   (* CBlock.inputs as names/constants; None for SBlocks *)
   bo_conf : option (list rinput);     (* get_conf()['inputs'] (names of blocks AND of Consts) *)
   bo_icon : list string;
-  bo_ocon : list string }.
+  bo_ocon : list string;
+  bo_sig : option (list (string * option nat)) }.   (* input_signature(): None = single input *)
 
 Record fobs := {
   fo_err : option errkind;            (* finalisation/start failed with ... *)
@@ -294,6 +295,21 @@ Definition conf_matches (o : bobs) : bool :=
   | _, _ => false
   end.
 
+(* input_signature() describes the shape of inputs: None for a single input, the size of a group *)
+Definition sig_matches (o : bobs) : bool :=
+  match bo_inputs o, bo_sig o with
+  | Some a, Some sg =>
+      Nat.eqb (List.length a) (List.length sg) &&
+      forallb (fun ab => String.eqb (fst (fst ab)) (fst (snd ab)) &&
+                         match snd (fst ab), snd (snd ab) with
+                         | inl _, None => true
+                         | inr g, Some n => Nat.eqb (List.length g) n
+                         | _, _ => false end) (combine a sg)
+  | Some [], None => true          (* not connected: input_signature() raises *)
+  | None, None => true
+  | _, _ => false
+  end.
+
 Definition fobs_monitor (o : fobs) : bool :=
   match fo_err o with
   | Some _ => true
@@ -305,7 +321,7 @@ Definition fobs_monitor (o : fobs) : bool :=
           let ba := existsb (String.eqb (bo_name a)) (bo_icon b) in      (* A in icon(B) *)
           let f := obs_feeds os (bo_name a) b in                         (* A feeds B *)
           Bool.eqb ab ba && Bool.eqb ba f) os) os
-      && forallb conf_matches os
+      && forallb conf_matches os && forallb sig_matches os
       && forallb (fun o =>            (* the inverter behind '_not_NAME' is wired to NAME only *)
            if String.prefix not_prefix (bo_name o) && negb (sixth_is_underscore (bo_name o)) then
              match bo_inputs o with
